@@ -1,4 +1,5 @@
-"""Deterministic replay of bison's parser skeleton on the tables regenerated from parser.y (gen_grammar), producing the
+"""Deterministic replay of bison's parser skeleton on the tables regenerated from parser.y (gen_grammar), fed by the extracted scanner of
+coq/theories/LexModel.v, producing the
 sequence of builder callbacks a token stream causes — including syntax errors and recovery.  Every move of the replay is an
 instance of a step of the Coq machine of LRStack.v (Shift, Reduce, Recover); C01 compares the replayed callback names with
 the callbacks the real parser issues (TraceBuilder), which ties the table reader, the action reader and the recovery model."""
@@ -10,6 +11,17 @@ START = {0: ('T_NEW', 'T_OLD'), 1: ('T_NEW_DECLARATION', 'T_OLD_DECLARATION'), 2
          5: ('T_NEW_PARAMETERS', 'T_OLD_PARAMETERS'), 6: ('T_NEW_INVARIANT', 'T_OLD_INVARIANT'), 7: ('T_EXPONENTIAL_RATE',) * 2, 8: ('T_NEW_SELECT',) * 2, 9: ('T_NEW_GUARD', 'T_OLD_GUARD'),
          10: ('T_NEW_SYNC',) * 2, 11: ('T_NEW_ASSIGN', 'T_OLD_ASSIGN'), 12: ('T_EXPRESSION',) * 2, 13: ('T_EXPRESSION_LIST',) * 2, 14: ('T_PROPERTY',) * 2, 15: ('T_XTA_PROCESS',) * 2,
          16: ('T_PROBABILITY',) * 2, 17: ('T_INSTANCE_LINE',) * 2, 18: ('T_MESSAGE',) * 2, 19: ('T_UPDATE',) * 2, 20: ('T_CONDITION',) * 2}
+def prelude_text():
+    """the built-in declarations parse_XTA parses (as a declaration block) before a whole new-syntax text: read from src/parser.y"""
+    import vlib
+    src = open(os.path.join(vlib.REPO, 'src', 'parser.y')).read()
+    m = re.search(r'utap_builtin_declarations\(\)\s*\{\s*return(.*?);\s*\}', src, re.S)
+    if not m:
+        raise RuntimeError('parser.y: utap_builtin_declarations() not found')
+    body = re.sub(r'//[^\n]*', '', m.group(1))
+    return ''.join(bytes(x, 'latin-1').decode('unicode_escape') for x in re.findall(r'"((?:[^"\\]|\\.)*)"', body))
+
+
 UNTRACED = {'handle_error', 'handle_warning', 'handle_expect', 'set_position'}
 
 
@@ -24,59 +36,49 @@ class Sim:
         for w, tok, syn in L['keywords']:
             self.kw.setdefault(w, []).append((tok, syn))
 
-    # ---- the lexer, for texts made of ordinary tokens (no type names declared by typedef, no string escapes)
-    def lex(self, text, newxta=True, prop=False):
-        out, i, n = [], 0, len(text)
-        while i < n:
-            c = text[i]
-            if c in ' \t\r\n':
-                i += 1; continue
-            if text.startswith('//', i):
-                j = text.find('\n', i); i = n if j < 0 else j; continue
-            if text.startswith('/*', i):
-                j = text.find('*/', i + 2)
-                if j < 0: return None                         # unterminated comment: not replayed
-                i = j + 2; continue
-            m = re.compile(r'[A-Za-z_][A-Za-z0-9_$#]*').match(text, i)
-            longest = next((lit for lit, t in self.literals if text.startswith(lit, i)), '')
-            if m and len(longest) > len(m.group(0)):
-                m = None                                     # flex takes the longest match: "A[]" beats the identifier A
-            if m:
-                w = m.group(0); i = m.end()
-                tok = 'T_ID'
-                whole = [t for lit, t in self.literals if lit == w]
-                if whole:                                    # "A", "U", "location", ...: a literal rule of the same length comes first in lexer.l
-                    out.append((whole[0], w)); continue
-                cur = {'PROPERTY'} if prop else ({'NEW', 'GUIDING'} if newxta else {'OLD', 'GUIDING'})
-                for t, syn in self.kw.get(w, []):
-                    comps = set(syn.split('_'))
-                    if 'PROB' in comps:                      # ENABLE_PROB is not defined in this build
-                        continue
-                    if comps & cur:
-                        tok = 'T_OLDCONST' if (t == 'T_CONST' and not newxta and not prop) else t
-                        break
-                out.append((tok, w)); continue
-            m = re.compile(r'[0-9]+(\.[0-9]+)?([eE][+-]?[0-9]+)?').match(text, i)
-            if m:
-                w = m.group(0); i = m.end()
-                if re.match(r'^[0-9]+$', w):
-                    s = w.lstrip('0')
-                    if s == '2147483648': out.append(('T_POS_NEG_MAX', w))
-                    elif s and int(s) > 2147483647: out.append(('T_ERROR', w))
-                    else: out.append(('T_NAT', w))
-                else:
-                    out.append(('T_FLOATING', w))
-                continue
-            if c == '"':
-                j = text.find('"', i + 1)
-                if j <= i + 1: out.append(('T_ERROR', c)); i += 1; continue
-                out.append(('T_CHARARR', text[i:j + 1])); i = j + 1; continue
-            for lit, tok in self.literals:
-                if text.startswith(lit, i):
-                    out.append((tok, lit)); i += len(lit); break
-            else:
-                out.append(('T_ERROR', c)); i += 1
-        return out
+    # ---- the lexer: the scanner of LexModel.v (extracted, instantiated with the literal table regenerated from lexer.l) splits the
+    # text; what is left here is what the actions of the identifier and number rules do (keyword table, syntax mask, overflow)
+    def lex_many(self, items):
+        """items: [(text, newxta, prop)] -> [token list | None]; None: unclosed comment, or the extraction is unavailable"""
+        import subprocess, vlib
+        if not hasattr(self, 'drv'):
+            self.drv, self.drv_err = vlib.build_extract('lex', 'Extract_Lex.v', 'drv_lex')
+        if self.drv is None:
+            return [None] * len(items)
+        out = subprocess.run([self.drv], input=''.join(t.encode('latin-1', 'replace').hex() + '\n' for t, _, _ in items), stdout=subprocess.PIPE, universal_newlines=True).stdout.split('\n')
+        res = []
+        for (text, newxta, prop), line in zip(items, out):
+            if line.strip() == 'UNCLOSED':
+                res.append(None); continue
+            toks = []
+            for w in line.split():
+                k, _, hx = w.rpartition(':')
+                t = bytes.fromhex(hx).decode('latin-1')
+                if k == 'I':
+                    tok = 'T_ID'
+                    cur = {'PROPERTY'} if prop else ({'NEW', 'GUIDING'} if newxta else {'OLD', 'GUIDING'})
+                    for kt, syn in self.kw.get(t, []):
+                        comps = set(syn.split('_'))
+                        if 'PROB' in comps:                  # ENABLE_PROB is not defined in this build
+                            continue
+                        if comps & cur:
+                            tok = 'T_OLDCONST' if (kt == 'T_CONST' and not newxta and not prop) else kt
+                            break
+                    toks.append((tok, t))
+                elif k == 'N':
+                    z = t.lstrip('0')
+                    toks.append(('T_POS_NEG_MAX' if z == '2147483648' else ('T_ERROR' if z and int(z) > 2147483647 else 'T_NAT'), t))
+                elif k == 'F': toks.append(('T_FLOATING', t))
+                elif k == 'S': toks.append(('T_CHARARR', t))
+                elif k == 'E': toks.append(('T_ERROR', t))
+                elif k == 'NL': continue
+                elif k.startswith('L'):
+                    name = k[1:]
+                    if name.endswith('|OLD'):
+                        name = name[:-4] if not newxta and not prop else 'T_ERROR'
+                    toks.append((name, t))
+            res.append(toks)
+        return res
 
     # ---- yacc.c
     def run(self, start_tok, toks, limit=200000):
